@@ -29,6 +29,7 @@ TraceTimeout == Get(C0, "timeout", 2000)
 TraceNotify == Get(C0, "notify", 500)
 TraceMaxBehind == Get(C0, "max_behind", 10)
 TraceCatchup == Get(C0, "catchup", 1)
+TraceWaitMs == Get(C0, "wait_ms", 0)
 
 VARIABLES l, drift
 
@@ -182,6 +183,25 @@ TraceTick(r) ==
             sd == IF Has(r, "sn") THEN SnapDiff(SSnap(ss'[p], cells'[p], now'), r.sn) ELSE {}
         IN Note(r, pre \cup ld \cup td \cup sd)
 
+\* a tick through advance_frame_with_wait_timeout: r.arr = <<yield, from, position (0-based), id>> of the
+\* packets that arrived during the wait, r.t1 = the clock when the call returned
+TraceTickW(r) ==
+  LET p == r.p
+      vals == [i \in 1..Len(r.in) |-> r.in[i][2]]
+      arrs == [i \in 1..Len(r.arr) |-> <<r.arr[i][1], r.arr[i][2], r.arr[i][3] + 1>>]
+      okA  == \A i \in 1..Len(arrs) : arrs[i][3] <= Len(net[<<arrs[i][2], p>>])
+  IN IF ~okA \/ r.wait # WaitMs
+     THEN /\ UNCHANGED sysvars
+          /\ Note(r, {<<"arr">>})
+     ELSE /\ TickWaitWith(p, vals, arrs)
+          /\ LET out == WaitResult(p, vals, arrs)[2]
+                 ld == LineDiff(lastLine', r)
+                 td == IF Has(r, "tx")
+                       THEN {<<"tx", to>> : to \in {x \in PeerIds : SentTo(out, x) # LoggedTo(r.tx, x)}} ELSE {}
+                 sd == IF Has(r, "sn") THEN SnapDiff(SSnap(ss'[p], cells'[p], now'), r.sn) ELSE {}
+                 cd == IF now' # r.t1 THEN {<<"clock">>} ELSE {}
+             IN Note(r, ld \cup td \cup sd \cup cd)
+
 TracePoll(r) ==
   LET p == r.p
       pre == InboxDiff(r, p)
@@ -310,6 +330,7 @@ TraceNext ==
                [] r.a = "poll" /\ spec -> TracePollSpec(r)
                [] r.a = "ev" /\ spec   -> TraceEvSpec(r)
                [] r.a = "stats" -> Skip
+               [] r.a = "tick" /\ Has(r, "wait") -> TraceTickW(r)
                [] r.a = "tick" -> TraceTick(r)
                [] r.a = "poll" -> TracePoll(r)
                [] r.a = "ev"   -> TraceEv(r)
